@@ -1,2 +1,7 @@
 //! Reference models: independent implementations written from the standards / the property text.
 pub mod mnemonic;
+pub mod errclass;
+pub mod queue;
+pub mod lexer;
+pub mod resolver;
+pub mod decode;
